@@ -104,6 +104,7 @@ type bridgeHist struct {
 	extraLocking     func(*blockOps)
 	acceptedDeposits []*depTruth // credited by accepted batches, in order, since the last reset
 	evmCtr           int
+	depositBurst     bool // mine and submit more deposits at once than one block may hand over
 }
 
 func newBridgeHist(lh *lockHist) *bridgeHist {
